@@ -95,6 +95,31 @@ PROPS["C09"] = A("TestSim_C09",
     probes=["c09.reload"], assumptions=COMMON_ASSUME + ["notes addressed to a topic the session is not attached to are answered 409 by design (docs/API.md); only 'no side effect' is required for them",
                                                        "over gRPC only kp/read/recv/call note kinds exist in the protobuf enum; other kinds are exercised from long-polling clients"])
 
+PERM_RULE = ("one evaluation = one simulated run of the 'perm' workload: population of 2-4 users (owner, members, channel readers, optional root, optional stranger subscribed to nothing) x 1-2 sessions "
+    "on 1-2 groups/channels and a p2p topic, then 4-18 strictly sequential isolated requests drawn from {sub}/{set sub} on self and on others with 16 mode strings (empty, N, full, O only, "
+    "with/without O, A, S, D, J, lower case, junk), {leave unsub}, {del sub}, {del topic} soft/hard, {set desc public/defacs/private}, {set tags}, subscribing to another user's fnd, to sys, to a p2p "
+    "topic by its p2p name, changing own mode from a session that is not attached, and full reloads of the topic. After every request: white-box snapshot and simulated disk are checked for ")
+
+PROPS["C06"] = A("TestSim_C06", PERM_RULE +
+    "exactly one effective owner per group in cache and store, equal to the recorded owner; ownership moves only when the recorded new owner had been granted O and sent the accepting request, the "
+    "previous owner then has O in neither mode; nobody but the owner removes, bans or demotes the owner, deletes the group or changes public/default access/tags. "
+    "Non-trivial = a completed ownership transfer or at least two refused attacks on the owner; distinct = distinct (program hash, schedule hash).",
+    probes=["perm.reload"], assumptions=COMMON_ASSUME)
+PROPS["C07"] = A("TestSim_C07", PERM_RULE +
+    "authorisation of every observed change of a (topic, user) grant or requested mode (actor held A or O; sharer invites only with the default grant; first subscribe gets the topic default for the "
+    "level or the previous grant of the soft-deleted subscription; administrators raise themselves only by bits other than O and D; O granted only by the owner; requested mode changed only by its user, "
+    "invite defaults or the transfer strip), no attached session of a user whose grant lacks J, p2p topics with at most two participants and modes within JRWPA including A, me/fnd attached only "
+    "by their user, sys only by root, subscriber count within the configured limit in cache and store. Non-trivial = at least 4 requests by at least 3 actor kinds with at least one refused; "
+    "distinct = distinct (program hash, schedule hash).",
+    probes=["perm.reload"], assumptions=COMMON_ASSUME, configs=[{}, {"max_subscriber_count": 3}, {}, {"max_subscriber_count": 2}])
+PROPS["C08"] = A("TestSim_C08", PERM_RULE +
+    "equality of every loaded group/p2p topic with its stored rows (last id, delete id, owner, default access, public, tags; per subscriber want, given, private, read/recv marks, delete id; "
+    "set of subscribers), i.e. what a fresh load would produce; in one third of the requests the k-th store call (k=1..4) of the request fails: the request must then be answered with an error, "
+    "and a refused or failed request must leave the simulated disk unchanged. Non-trivial = a run with an injected store failure or a real reload of a topic; "
+    "distinct = distinct (program hash, schedule hash).",
+    probes=["perm.reload", "fault.store_err"], assumptions=COMMON_ASSUME + ["the reload-twin-run comparison of client-visible answers (DESIGN.md C08 oracle 2/3) is replaced by the direct cache/store comparison plus real reloads inside the run",
+        "crash points are exercised by C01 (publish path); here only store failures are injected"])
+
 NOT_APPLICABLE = {
     "C20": "pure functions of one input (id codecs, name spellings, JSON<->protobuf converters): no schedule, clock, fault, crash point or second party for a simulator to decide; see DESIGN.md section 6",
 }
